@@ -43,9 +43,9 @@ def write_cfg(path, consts, invariants=(), properties=(), view=None, spec="Spec"
 
 
 def run_consts(N, api, order="fwd", limit=0, strategy="none", k=0, include=True, pre=False, maxfail=0, control=False,
-               env="async", **dev):
+               env="async", inside=False, **dev):
     c = dict(N=N, Api=api, Control=control, Order=order, Limit=limit, Strategy=strategy, K=k, Include=include, PreSig=pre,
-             MaxFail=maxfail, EnvMode=env)
+             MaxFail=maxfail, EnvMode=env, SignalInside=inside)
     d = dict(RUN_DEV)
     d.update(dev)
     c.update(d)
@@ -74,6 +74,8 @@ RUN_SETS = [
     ("fold_polln2_pre", dict(api="fold", strategy="poll_n", k=2, pre=True)),
     ("tfold_finish", dict(api="try_fold", strategy="finish", maxfail=1)),
     ("tfold_polln0", dict(api="try_fold", strategy="poll_n", k=0, maxfail=1)),
+    ("fe_l2_polln1_inside", dict(api="for_each", limit=2, strategy="poll_n", k=1, inside=True)),
+    ("fold_finish_inside", dict(api="fold", strategy="finish", inside=True)),
 ]
 RUN_SETS_MORE = [
     ("fe_l3_finish_x", dict(api="for_each", limit=3, strategy="finish", include=False)),
@@ -189,7 +191,7 @@ def multi_consts(overlap, a, b, N=2, maxfail=1):
         return {f"Api{i}": kw.get("api", "for_each"), f"Control{i}": kw.get("control", False), f"Order{i}": kw.get("order", "fwd"),
                 f"Limit{i}": kw.get("limit", 0), f"Strategy{i}": kw.get("strategy", "none"), f"K{i}": kw.get("k", 0),
                 f"Include{i}": kw.get("include", True), f"PreSig{i}": kw.get("pre", False)}
-    c = dict(N=N, MaxFail=maxfail, EnvMode="async", Overlap=overlap)
+    c = dict(N=N, MaxFail=maxfail, EnvMode="async", SignalInside=False, Overlap=overlap)
     c.update(one(1, a))
     c.update(one(2, b))
     return c
@@ -239,7 +241,7 @@ def scenario_from_model(o):
     steps = [dict(op="call", run=1)]
     for s in o["steps"]:
         if s["op"] == "open":
-            steps.append(dict(op="open", run=1, f=s["f"], ok=s["ok"]))
+            steps.append(dict(op="open", run=1, f=s["f"], ok=s["ok"], signal=bool(s.get("signal", False))))
         else:
             steps.append(dict(op="signal", run=1))
     return dict(id=o["id"], n=o["n"], calls=calls, phases=[dict(op="runs", runs=[run], steps=steps)],
@@ -296,32 +298,41 @@ def plan_for(prop, tier, seed):
         P["design"] = run_sweep(tier, lambda k: k["api"] in ("for_each", "try_for_each")) + stream_sweep(tier)[:2] + builder_sweep(tier)[:1]
         P["scenarios"] = scenario_jobs(tier, lambda k: k["api"] in ("for_each", "try_for_each"))
         P["families"] = [fam("runs_exh", shards=12 if T else 6, sample=8 if T else 12, focus="eager"), fam("runs_rand", shards=4, focus="eager"),
-                         fam("builder_exh", shards=3, sample=2 if T else 12)]
+                         fam("builder_exh", shards=3, sample=2 if T else 12), fam("wide", shards=3, focus="eager")]
         P["nontrivial_keys"] = ["idle_eager_nontrivial", "build_data_edge"]
         P["rule"] = "non-trivial = distinct traces with an idle point of an unlimited, unsignalled, failure-free concurrent call with unstarted functions, or a build with data edges"
     elif prop == "C07":
         P["design"] = run_sweep(tier, lambda k: k["api"].startswith("try"))
         P["scenarios"] = scenario_jobs(tier, lambda k: k["api"].startswith("try"))
-        P["families"] = [fam("runs_exh", shards=12 if T else 6, sample=8 if T else 8, focus="try"), fam("runs_rand", shards=4, focus="try")]
+        P["families"] = [fam("runs_exh", shards=12 if T else 6, sample=8 if T else 8, focus="try"), fam("runs_rand", shards=4, focus="try"),
+                         fam("wide", shards=3, focus="try")]
         P["nontrivial_keys"] = ["return_failed"]
         P["rule"] = "non-trivial = distinct traces in which at least one function failed"
     elif prop == "C08":
-        P["design"] = run_sweep(tier, lambda k: k.get("strategy", "none") != "none") + stream_sweep(tier, interrupting_only=True)
+        P["design"] = (run_sweep(tier, lambda k: k.get("strategy", "none") != "none") + stream_sweep(tier, interrupting_only=True)
+                       + [job("IStreamMC", "istream", dict(MaxK=3, MaxItems=6),
+                              ["Inv_C08", "Inv_EndsAfterInterrupt", "Inv_Transparent", "Inv_IntItemOnlyFinish"], workers=2, heap="2g"),
+                          # the known finding, reproduced at design level: the bound on STARTS fails for the for_each bodies
+                          # when the signal arrives in the middle of a poll
+                          job("Run", "finding_c08_starts", run_consts(3, "for_each", strategy="finish"), ["Inv_C08", "Inv_C08_Starts"],
+                              view="View", workers=2, heap="3g", expect="Inv_C08_Starts")])
         P["scenarios"] = scenario_jobs(tier, lambda k: k.get("strategy", "none") != "none")
         P["families"] = [fam("runs_exh", shards=12 if T else 6, sample=8 if T else 12, focus="int"), fam("runs_rand", shards=4, focus="int"),
-                         fam("stream_exh", shards=6 if T else 3, sample=2 if T else 4, focus="int"), fam("stream_rand", shards=2, focus="int")]
+                         fam("stream_exh", shards=6 if T else 3, sample=2 if T else 4, focus="int"), fam("stream_rand", shards=2, focus="int"),
+                         fam("wide", shards=3, focus="int")]
         P["nontrivial_keys"] = ["return_interruptible", "handout_after_signal"]
         P["rule"] = "non-trivial = distinct traces of an interrupting strategy in which a signal was sent or pending"
     elif prop == "C09":
         P["design"] = run_sweep(tier)
         P["scenarios"] = scenario_jobs(tier)
-        P["families"] = run_fams
+        P["families"] = run_fams + [fam("wide", shards=3)]
         P["nontrivial_keys"] = ["return"]
         P["rule"] = "non-trivial = distinct traces that returned a StreamOutcome"
     elif prop == "C10":
         P["design"] = run_sweep(tier, lambda k: k.get("limit", 0) >= 1 or k["api"] in ("fold", "try_fold")) + run_live(tier)[:1]
         P["scenarios"] = scenario_jobs(tier, lambda k: k.get("limit", 0) >= 1)
-        P["families"] = [fam("runs_exh", shards=12 if T else 6, sample=8 if T else 10, focus="limit"), fam("runs_rand", shards=4, focus="limit")]
+        P["families"] = [fam("runs_exh", shards=12 if T else 6, sample=8 if T else 10, focus="limit"), fam("runs_rand", shards=4, focus="limit"),
+                         fam("wide", shards=3, focus="limit")]
         P["nontrivial_keys"] = ["handout_limited"]
         P["rule"] = "non-trivial = distinct traces with hand-outs under a limit >= 1 (folds: limit 1)"
     elif prop in ("C11", "C12", "C13"):
